@@ -1,5 +1,6 @@
 import GB.C07.Proofs
 import GB.C07.Glue
+import GB.C07.WireProofs
 import GB.Generated.Facts
 /-
   C07 — property theorems.  The model (GB/C07/Model.lean) is grpcadapter/metadata.go,
@@ -474,4 +475,73 @@ theorem C07_facts_no_shared_defaults :
     GB.Generated.c07MutablePackageVars = []
     ∧ GB.Generated.c07SharedSyncTypes = []
     ∧ GB.Generated.c07DefaultForwarderSites = ["bridge.go:NewWebBridge", "proxy.go:NewGRPCProxy"] := by
+  decide
+
+
+/-! ### Round 5 (w2net): the gRPC-WebSocket metadata MESSAGE as arbitrary bytes (`textproto.ReadMIMEHeader` in the model)
+
+  `readMDPairs data` = the `(key as written, value)` lines `readMD` (webbridge/grpcweb.go) accepts from the first
+  frame `data`, `none` = the call fails with InvalidArgument and nothing is forwarded; `readMD data` = the
+  `metadata.MD(mimeHeader)` handed to the forwarder. -/
+
+/-- The allow-list theorem over the RAW frame bytes, for every byte string: either `ReadMIMEHeader` rejects the frame,
+    or an entry reaches the target only if its key is not `grpc-timeout`, some allow-listed name is renamed onto it,
+    and every value is (the base64 decoding of, for binary keys) the value of a wire line whose name equals the
+    listed name up to ASCII case. -/
+theorem C07_grpcws_raw_only_allowed (data : Bytes) (o : Opts) :
+    readMDPairs data = none ∨
+    ∃ ps, readMDPairs data = some ps ∧ ∀ e ∈ targetMD .grpcws o { lines := ps },
+      e.1 ≠ timeoutKey ∧ ∃ a ∈ o.allowReq, e.1 = rename o.prefixReq a ∧
+        ∀ v ∈ e.2, ∃ p ∈ ps, lower p.1 = lower a ∧
+          (if hasBinSuffix (renameRaw o.prefixReq a) then decodeBinHeader p.2 = some v else p.2 = v) := by
+  cases h : readMDPairs data with
+  | none => exact Or.inl rfl
+  | some ps =>
+    refine Or.inr ⟨ps, rfl, ?_⟩
+    intro e he
+    exact C07_target_only_allowed .grpcws o { lines := ps } e he
+
+/-- Multiple lines of one header: the values under a canonical key are the values of exactly the lines whose name
+    canonicalises to it, in wire order (names differing only in ASCII case merge; a name with a SP is kept as written). -/
+theorem C07_wire_lookup (ps : List (Bytes × Bytes)) (K : Bytes) :
+    MD.lookup (mimeHeader ps) K = wireValues K ps := lookup_mimeHeader ps K
+
+/-- Every key `ReadMIMEHeader` lets through — in the gRPC-WebSocket frame and in an HTTP request alike — is non-empty
+    and pure ASCII (token bytes, or SP): a line whose name has a byte ≥ 0x80, a CTL or NUL fails the whole frame. -/
+theorem C07_wire_keys_ascii (ls : List Bytes) (ps : List (Bytes × Bytes)) (h : readPairs ls = some ps) :
+    ∀ p ∈ ps, p.1 ≠ [] ∧ (∀ c ∈ p.1, c.toNat < 128) ∧ (∀ c ∈ canonKey p.1, c.toNat < 128) := by
+  intro p hp
+  obtain ⟨h1, h2⟩ := keyOK_ascii p.1 (readPairs_keyOK ls ps h p hp)
+  exact ⟨h1, h2, canonKey_ascii p.1 h2⟩
+
+/-- `strings.ToLower` on non-ASCII keys cannot matter on this entry point: for ANY lower-casing function `L` that
+    agrees with ASCII lower-casing on ASCII strings (as `strings.ToLower` does; on non-ASCII input it may do anything,
+    e.g. map U+212A KELVIN SIGN to `k`), `L` and the model's `lower` agree on every key of the metadata `readMD`
+    hands on — so a non-ASCII name can never be folded onto an ASCII allow-list entry: it never gets that far. -/
+theorem C07_wire_tolower_ascii_only (L : Bytes → Bytes)
+    (hL : ∀ s : Bytes, (∀ c ∈ s, c.toNat < 128) → L s = lower s)
+    (data : Bytes) (ps : List (Bytes × Bytes)) (h : readMDPairs data = some ps) :
+    ∀ p ∈ ps, L (canonKey p.1) = lower (canonKey p.1) ∧ L p.1 = lower p.1 := by
+  intro p hp
+  obtain ⟨_, h2, h3⟩ := C07_wire_keys_ascii _ ps h p hp
+  exact ⟨hL _ h3, hL _ h2⟩
+
+/-- kernel-checked instances of the wire parser (`decide`): continuation lines are joined with one SP after trimming;
+    `Key : v` keeps the key `Key ` uncanonicalised; a missing colon, an empty key, a leading SP on the first line, a NUL
+    in a value, a non-ASCII key (`K` U+212A = E2 84 AA) and a frame without the final CRLF all fail the frame; what
+    follows a blank line is not read. -/
+theorem C07_wire_examples :
+    -- "x-a: 1\r\n\t2 \r\nX-A:3\r\n": one key `X-A` with the values "1 2", "3"
+    readMDPairs [120,45,97,58,32,49,13,10,9,50,32,13,10,88,45,65,58,51,13,10] = some [([120,45,97], [49,32,50]), ([88,45,65], [51])] ∧
+    (readMDPairs [120,45,97,58,32,49,13,10,9,50,32,13,10,88,45,65,58,51,13,10]).map (fun ps => MD.lookup (mimeHeader ps) [88,45,65]) =
+      some [[49,32,50], [51]] ∧
+    -- "x-a : 1\r\n"
+    readMDPairs [120,45,97,32,58,32,49,13,10] = some [([120,45,97,32], [49])] ∧
+    -- "x-a\r\n", ": 1\r\n", " x-a: 1\r\n", "x-a: \x00\r\n", "\xe2\x84\xaa: v\r\n", "x-a: 1" (no CRLF)
+    readMDPairs [120,45,97,13,10] = none ∧ readMDPairs [58,32,49,13,10] = none ∧ readMDPairs [32,120,45,97,58,32,49,13,10] = none ∧
+    readMDPairs [120,45,97,58,32,0,13,10] = none ∧ readMDPairs [0xe2,0x84,0xaa,58,32,118,13,10] = none ∧
+    readMDPairs [120,45,97,58,32,49] = none ∧
+    -- "x-a: 1\r\n\r\nbroken\r\n" and the empty frame
+    readMDPairs [120,45,97,58,32,49,13,10,13,10,98,114,111,107,101,110,13,10] = some [([120,45,97], [49])] ∧
+    readMDPairs [] = some [] := by
   decide
